@@ -289,6 +289,12 @@ def make_tasks(tier):
     T.append(("fast_random_hypergraph", {"n": 4, "ps": [1.0, 0.5], "order": None}))
     T.append(("fast_random_hypergraph", {"n": 4, "ps": [0.5, 0.0], "order": None}))
     T.append(("random_hypergraph", {"n": 4, "ps": [0.5, 0.5], "order": None}))
+    # explicit lists of orders, in every arrangement (decreasing, with gaps), as list and as numpy array
+    for f in ("fast_random_hypergraph", "random_hypergraph"):
+        for order, ps in (([2, 1], [1.0, 0.0]), ([2, 1], [0.0, 1.0]), ([1, 2], [1.0, 0.0]), ([3, 1], [1.0, 0.0]), ([1, 3], [0.0, 1.0]),
+                          ([3, 1, 2], [1.0, 0.0, 1.0]), ([2, 1], [0.5, 1.0])):
+            T.append((f, {"n": 5 if (3 in order and f.startswith("fast")) else 4, "ps": ps, "order": order}))
+        T.append((f, {"n": 4, "ps": [1.0, 0.0], "order": [2, 1], "as_array": True}))
     for n, m in ((3, 2), (4, 2), (4, 3)) + (() if q else ((5, 2), (5, 3))):
         for p in (0.0, 0.5, 1.0):
             for multi in (False, True):
@@ -353,8 +359,14 @@ def call_and_check(name, P):
     if name in ("fast_random_hypergraph", "random_hypergraph"):
         n = P["n"]
         ps, order = P["ps"], P["order"]
-        orders = [order] if order is not None else [i + 1 for i in range(len(ps))]
-        plist = [ps] if order is not None else list(ps)
+        if order is None:
+            orders, plist = [i + 1 for i in range(len(ps))], list(ps)
+        elif isinstance(order, (list, tuple)):
+            orders, plist = [int(d) for d in order], list(ps)  # the i-th probability belongs to the i-th listed order
+            if P.get("as_array"):
+                order = np.array(order)
+        else:
+            orders, plist = [order], [ps]
         f = getattr(xgi, name)
         call = lambda: f(n, ps, order=order, seed=7)  # noqa: E731
         hz = max(math.comb(n, d + 1) for d in orders)
